@@ -141,6 +141,15 @@ def run_one(case, cnt):
     rec = asm.Recorder()
     o = asm.assemble(files, budget=budget, wall=300, handler=make_handler(case["handler"], rec))
     o.events = rec.events
+    texts = [t for _, t in files]
+    if o.cls == "nonterm" and not huge_repeat(o) and known_key(texts, o) is None:
+        # many lazily sized statements before the base is known cost O(n^3) steps: slow, but finite.  Decide with a 40x budget.
+        rec = asm.Recorder()
+        o2 = asm.assemble(files, budget=40 * budget, wall=900, handler=make_handler(case["handler"], rec))
+        o2.events = rec.events
+        if o2.cls != "nonterm":
+            cnt["slow_but_terminating"] = cnt.get("slow_but_terminating", 0) + 1
+        o = o2
     info = {"cls": o.cls, "steps": o.steps, "ids": sorted(set(e["id"] for e in o.events)),
             "reached_compiler": o.compiler is not None, "site": None}
     texts = [t for _, t in files]
